@@ -31,6 +31,9 @@ type Profile struct {
 	Simple         bool // tables of short plain cells (every output mode can be parsed back)
 	SimpleEvery    int  // every n-th case uses Simple tables
 	OrderLimit     bool // the ORDER BY + LIMIT family: duplicate rows, every limit from 0 to one past the row count
+	Having         bool // grouping subquery / WITH table whose aggregate columns (NULL for all-NULL groups) feed strict operators, filters and further aggregates of the enclosing query
+	ManyKeys       bool // >= 200 rows, >= 100 distinct Float keys incl. 0.0 and -0.0: GROUP BY / DISTINCT / count(DISTINCT) beyond the hashmaps' initial size
+	OuterTrig      bool // aggregates (incl. DISTINCT ones) of an enclosing query over a GROUP BY ... TRIGGER COUNTING subquery
 	TrigFamily     bool // GROUP BY ... TRIGGER COUNTING n over keys that fire repeatedly, with and without a change of the aggregates
 	Logic          bool // the three-valued-logic family: WHERE / select expressions over nullable and non-nullable columns
 	Nested         bool // the nested-relation family: an outer select reading part of a DISTINCT / grouping / limited relation
@@ -837,6 +840,12 @@ func (g *Gen) GenOrderLimitTop(i int) *Top {
 	}
 	key := inner.Items[r.Intn(len(inner.Items))].Alias
 	inner.OrderBy = []OrderKey{{E: Col{Name: key}, Desc: r.Bool()}}
+	if len(inner.Items) == 2 && i%2 == 1 {
+		// two keys, every combination of directions in turn (ties on the first key, different second keys)
+		d := (i / 2) % 4
+		inner.OrderBy = []OrderKey{{E: Col{Name: inner.Items[1].Alias}, Desc: d < 2}, {E: Col{Name: inner.Items[0].Alias}, Desc: d%2 == 1}}
+		g.shape(fmt.Sprintf("order_limit two keys desc=%v,%v", d < 2, d%2 == 1))
+	}
 	inner.Limit = &n
 	g.shape(fmt.Sprintf("order_limit n-rows=%+d", int(n)-nrows))
 	if i%3 != 2 {
@@ -905,6 +914,11 @@ func (g *Gen) GenNestedTop(i int) *Top {
 		inner.OrderBy = []OrderKey{{E: Col{Name: out[2].Name}, Desc: r.Bool()}, {E: Col{Name: out[0].Name}, Desc: r.Bool()}, {E: Col{Name: out[1].Name}, Desc: r.Bool()}}
 		n := int64(r.Intn(nrows + 1))
 		inner.Limit = &n
+		if i%8 == 6 {
+			inner.OrderBy = nil // a WITH / subquery body ending in LIMIT n alone: the first n rows of the file
+			n = int64(r.Intn(nrows))
+			g.shape("nested LIMIT without ORDER BY")
+		}
 	default:
 		inner.Distinct = true
 		add("a", KInt)
@@ -980,7 +994,7 @@ func (g *Gen) GenLogicTop(i int) *Top {
 		return Col{Name: n}
 	}
 	atom := func() Expr {
-		switch r.Intn(11) {
+		switch r.Intn(13) {
 		case 0:
 			return Bin{[]string{"<", ">=", "="}[r.Intn(3)], col("a"), Lit{Int(int64(r.Intn(3)))}}
 		case 1:
@@ -1001,6 +1015,13 @@ func (g *Gen) GenLogicTop(i int) *Top {
 			return Un{"isnotnull", col([]string{"a", "s", "f", "d"}[r.Intn(4)])}
 		case 9:
 			return Lit{Bool(r.Chance(3, 4))}
+		case 11, 12:
+			// = / != take Any: an operand whose static type is exactly NULL still makes the result NULL
+			c := col([]string{"a", "b", "s", "d"}[r.Intn(4)])
+			if r.Bool() {
+				return Bin{[]string{"=", "!="}[r.Intn(2)], c, Lit{Null()}}
+			}
+			return Bin{[]string{"=", "!="}[r.Intn(2)], Lit{Null()}, c}
 		default:
 			return Bin{"<=", Lit{Int(int64(r.Intn(3)))}, Lit{Int(int64(r.Intn(3)))}}
 		}
@@ -1144,16 +1165,20 @@ func (g *Gen) nameMapItems(items []Item, fs []Field, out []Field) {
 // a key fires, fires again with unchanged aggregates, then with changed ones.  The final rows must be the grouping.
 func (g *Gen) GenTriggerTop(i int) *Top {
 	r := g.R
-	t := &Table{Name: "t1.csv", Cols: []string{"k", "v"}, Types: []Kind{KStr, KInt}}
+	t := &Table{Name: "t1.csv", Cols: []string{"k", "v", "w"}, Types: []Kind{KStr, KInt, KInt}}
 	nrows := 6 + r.Intn(6)
 	for j := 0; j < nrows; j++ {
-		row := []Val{Str(simpleStrings[r.Intn(2+i%2)]), Int(int64(r.Intn(3)))}
+		row := []Val{Str(simpleStrings[r.Intn(2+i%2)]), Int(int64(r.Intn(3))), Int(int64(1 + r.Intn(3)))}
 		if r.Chance(2, 5) {
-			row[1] = Null()
+			row[1] = Null() // the input of the earlier aggregates is NULL while w is not
+		}
+		if r.Chance(1, 6) {
+			row[2] = Null()
 		}
 		t.Rows = append(t.Rows, row)
 	}
 	t.Rows[0][1] = Int(1)
+	t.Rows[1][1], t.Rows[1][2] = Null(), Int(2)
 	g.Tables = []*Table{t}
 	q := &Query{From: Source{Kind: "table", Table: t.Name, Alias: "t1"}, GroupBy: []Expr{Col{Name: "k"}}}
 	q.Items = []Item{{E: Col{Name: "k"}, Alias: g.fresh("k")}}
@@ -1166,9 +1191,213 @@ func (g *Gen) GenTriggerTop(i int) *Top {
 		it.Alias = g.fresh("g")
 		q.Items = append(q.Items, it)
 	}
+	// a later aggregate over another column, and the row count
+	last := []Item{{Agg: "sum", E: Col{Name: "w"}}, {Agg: "count", CStar: true, E: Lit{Bool(true)}}, {Agg: "max", E: Col{Name: "w"}}}[i%3]
+	last.Alias = g.fresh("g")
+	q.Items = append(q.Items, last)
 	q.Trigger = []string{"COUNTING 1", "COUNTING 1", "COUNTING 2", "COUNTING 1, ON END OF STREAM"}[i%4]
 	g.Triggers = append(g.Triggers, q)
 	g.shape("trigger family " + q.Trigger)
 	q.OrderBy = []OrderKey{{E: Col{Name: q.Items[0].Alias}, Desc: r.Bool()}}
 	return &Top{Main: q}
+}
+
+// GenHavingTop: SELECT k, sum(v), max(v), count(v), avg(v), min(w) ... GROUP BY k over a table in which one key has
+// only NULL inputs (its aggregates are NULL) as a subquery in FROM or a WITH table, under an enclosing query that
+// applies strict operators (<, +, NOT, =), a filter, or further aggregates (also DISTINCT ones, also grouped) to the
+// aggregate columns.  NULL must propagate through the enclosing query's operators exactly as for a NULL column.
+func (g *Gen) GenHavingTop(i int) *Top {
+	r := g.R
+	t := &Table{Name: "t1.csv", Cols: []string{"k", "v", "w"}, Types: []Kind{KStr, KInt, KInt}}
+	keys := []string{"a", "b", "ab"}
+	big := i%5 == 0
+	nrows := 6 + r.Intn(5)
+	for j := 0; j < nrows; j++ {
+		k := keys[r.Intn(3)]
+		row := []Val{Str(k), Int(int64(r.Intn(7))), Int(int64(r.Intn(4)))}
+		if k == "ab" || r.Chance(1, 4) {
+			row[1] = Null() // every v of key ab is NULL
+		}
+		if big {
+			row[2] = Int(bigInts[r.Intn(7)]) // sums and averages beyond 2^53
+		}
+		if r.Chance(1, 4) {
+			row[2] = Null()
+		}
+		t.Rows = append(t.Rows, row)
+	}
+	t.Rows[0] = []Val{Str("ab"), Null(), Int(1)}
+	t.Rows[1] = []Val{Str("a"), Int(5), Null()}
+	t.Rows[2] = []Val{Str("b"), Null(), Null()}
+	if r.Chance(1, 3) {
+		t.Rows = append(t.Rows, []Val{Null(), Null(), Int(2)}) // a NULL key whose inputs are NULL as well
+	}
+	g.Tables = []*Table{t}
+	inner := &Query{From: Source{Kind: "table", Table: t.Name, Alias: "t1"}, GroupBy: []Expr{Col{Name: "k"}}}
+	k1 := g.fresh("k")
+	inner.Items = []Item{{E: Col{Name: "k"}, Alias: k1}}
+	pool := []Item{{Agg: "sum", E: Col{Name: "v"}}, {Agg: "max", E: Col{Name: "v"}}, {Agg: "min", E: Col{Name: "v"}},
+		{Agg: "avg", E: Col{Name: "v"}}, {Agg: "count", E: Col{Name: "v"}}, {Agg: "sum", Dist: true, E: Col{Name: "v"}},
+		{Agg: "min", E: Col{Name: "w"}}, {Agg: "count", Dist: true, E: Col{Name: "w"}}}
+	var aggs []string
+	for j := 0; j < 2; j++ {
+		it := pool[(i+3*j+r.Intn(2))%len(pool)]
+		if big && j == 1 {
+			it = Item{Agg: "avg", Dist: i%10 == 0, E: Col{Name: "w"}}
+		}
+		it.Alias = g.fresh("g")
+		inner.Items = append(inner.Items, it)
+		aggs = append(aggs, it.Alias)
+	}
+	top := &Top{}
+	var src Source
+	qual := ""
+	if i%4 == 3 {
+		top.CTEs = []CTE{{"w1", inner}}
+		src = Source{Kind: "cte", Table: "w1"}
+	} else {
+		qual = g.fresh("x")
+		src = Source{Kind: "sub", Sub: inner, Alias: qual}
+	}
+	ref := func(n string) Expr {
+		if qual != "" && r.Bool() {
+			return Col{Qual: qual, Name: n}
+		}
+		return Col{Name: n}
+	}
+	a, b := aggs[0], aggs[1]
+	lit := func() Expr { return Lit{Int(int64(r.Intn(7)))} }
+	outer := &Query{From: src}
+	switch i % 8 {
+	case 0: // HAVING-like filter with a strict comparison
+		outer.Where = Bin{[]string{"<", "<=", ">", ">=", "=", "!="}[r.Intn(6)], ref(a), lit()}
+		outer.Items = []Item{{E: ref(k1), Alias: g.fresh("c")}, {E: ref(a), Alias: g.fresh("c")}}
+	case 1: // arithmetic and comparison in the select list
+		outer.Items = []Item{{E: ref(k1), Alias: g.fresh("c")}, {E: Bin{"+", ref(a), Lit{Int(1)}}, Alias: g.fresh("c")},
+			{E: Bin{"<", ref(b), lit()}, Alias: g.fresh("c")}, {E: Un{"neg", ref(a)}, Alias: g.fresh("c")}}
+	case 2: // NOT / AND over comparisons of aggregates
+		outer.Where = Un{"not", And{Bin{">=", ref(a), lit()}, Un{"isnotnull", ref(k1)}}}
+		outer.Items = []Item{{E: ref(k1), Alias: g.fresh("c")}, {E: ref(b), Alias: g.fresh("c")}}
+	case 3: // aggregate against aggregate
+		outer.Where = Bin{[]string{"<", "=", ">="}[r.Intn(3)], ref(a), ref(b)}
+		outer.Items = []Item{{E: ref(k1), Alias: g.fresh("c")}, {E: Bin{"*", ref(a), ref(b)}, Alias: g.fresh("c")}}
+	case 4: // further aggregates over the aggregate columns
+		outer.Items = []Item{{Agg: "sum", E: ref(a), Alias: g.fresh("g")}, {Agg: "count", E: ref(a), Alias: g.fresh("g")},
+			{Agg: "count", Dist: true, E: ref(b), Alias: g.fresh("g")}, {Agg: "max", E: Bin{"+", ref(a), Lit{Int(1)}}, Alias: g.fresh("g")}}
+	case 5: // grouped again by an aggregate column
+		outer.GroupBy = []Expr{ref(b)}
+		outer.Items = []Item{{E: outer.GroupBy[0], Alias: g.fresh("k")}, {Agg: "array_agg", E: ref(a), Alias: g.fresh("g")},
+			{Agg: "count", CStar: true, E: Lit{Bool(true)}, Alias: g.fresh("g")}}
+	case 6: // filter on IS NULL and a strict operator on the other aggregate
+		outer.Where = Or{Un{"isnull", ref(a)}, Bin{"<", Bin{"-", ref(b), Lit{Int(1)}}, lit()}}
+		outer.Items = []Item{{E: ref(k1), Alias: g.fresh("c")}, {E: Bin{"=", ref(a), ref(b)}, Alias: g.fresh("c")}}
+	default: // DISTINCT aggregates of the enclosing query
+		outer.Items = []Item{{Agg: "sum", Dist: true, E: ref(a), Alias: g.fresh("g")}, {Agg: "avg", E: ref(b), Alias: g.fresh("g")},
+			{Agg: "array_agg", Dist: true, E: ref(a), Alias: g.fresh("g")}}
+	}
+	g.shape(fmt.Sprintf("having family shape %d", i%8))
+	top.Main = outer
+	return top
+}
+
+// GenManyKeysTop: a CSV table whose (Int, Float) key takes >= 70 distinct values, among them (0, 0.0) and (0, -0.0)
+// (equal under Compare, so one key / one DISTINCT value), both zeros occurring before and after the hashmaps of
+// SimpleGroupBy / Distinct / the DISTINCT aggregates have grown beyond their initial 128 slots (65th distinct key).
+// The Int column comes first so that the model's row comparisons are mostly decided on it (Float comparison is
+// costly inside Coq); the third shape puts >= 66 distinct Floats into one group of count(DISTINCT f).
+func (g *Gen) GenManyKeysTop(i int) *Top {
+	r := g.R
+	t := &Table{Name: "t1.csv", Cols: []string{"i", "f"}, Types: []Kind{KInt, KFloat}}
+	negZero := math.Copysign(0, -1)
+	ndist := 70 + r.Intn(20)
+	if i%3 == 2 {
+		ndist = 66 + r.Intn(6)
+	}
+	zero := func(neg bool) []Val {
+		if neg {
+			return []Val{Int(0), Float(negZero)}
+		}
+		return []Val{Int(0), Float(0)}
+	}
+	t.Rows = append(t.Rows, []Val{Int(1), Float(0.5)}, zero(i%2 == 0), zero(i%2 != 0)) // 0.5 first: the column is inferred Float
+	for j := 2; j <= ndist; j++ {
+		v := float64(j) * 0.5
+		if j%3 == 0 {
+			v = -v
+		}
+		t.Rows = append(t.Rows, []Val{Int(int64(j)), Float(v)})
+		if j%9 == 0 {
+			t.Rows = append(t.Rows, zero(j%2 == 0))
+		}
+		if r.Chance(1, 4) {
+			k := r.Intn(len(t.Rows))
+			t.Rows = append(t.Rows, append([]Val(nil), t.Rows[k]...)) // repeated keys
+		}
+	}
+	t.Rows = append(t.Rows, zero(true), zero(false), zero(true))
+	g.Tables = []*Table{t}
+	q := &Query{From: Source{Kind: "table", Table: t.Name, Alias: "t1"}}
+	switch i % 3 {
+	case 0:
+		q.GroupBy = []Expr{Col{Name: "i"}, Col{Name: "f"}}
+		q.Items = []Item{{E: Col{Name: "i"}, Alias: g.fresh("k")}, {E: Col{Name: "f"}, Alias: g.fresh("k")},
+			{Agg: "count", CStar: true, E: Lit{Bool(true)}, Alias: g.fresh("g")}}
+		g.MainOut = []Field{{T: KInt}, {T: KFloat}, {T: KInt}}
+	case 1:
+		q.Distinct = true
+		q.Items = []Item{{E: Col{Name: "i"}, Alias: g.fresh("c")}, {E: Col{Name: "f"}, Alias: g.fresh("c")}}
+		g.MainOut = []Field{{T: KInt}, {T: KFloat}}
+	default:
+		q.Items = []Item{{Agg: "count", Dist: true, E: Col{Name: "f"}, Alias: g.fresh("g")}, {Agg: "count", E: Col{Name: "f"}, Alias: g.fresh("g")}}
+		g.MainOut = []Field{{T: KInt}, {T: KInt}}
+	}
+	g.shape(fmt.Sprintf("many keys family shape %d", i%3))
+	return &Top{Main: q}
+}
+
+// GenOuterTrigTop: SELECT k, count(*) AS c, sum(v) AS s FROM t GROUP BY k TRIGGER COUNTING n as a subquery whose
+// output (insertions and retractions of partial results; several keys pass through the same counts) feeds
+// aggregates of the enclosing query: count / sum / array_agg with and without DISTINCT, min, max, avg, grouped or not.
+func (g *Gen) GenOuterTrigTop(i int) *Top {
+	r := g.R
+	t := &Table{Name: "t1.csv", Cols: []string{"k", "v"}, Types: []Kind{KStr, KInt}}
+	nrows := 6 + r.Intn(6)
+	for j := 0; j < nrows; j++ {
+		row := []Val{Str(simpleStrings[r.Intn(3)]), Int(int64(r.Intn(3)))}
+		if r.Chance(1, 4) {
+			row[1] = Null()
+		}
+		t.Rows = append(t.Rows, row)
+	}
+	t.Rows[0] = []Val{Str("a"), Int(1)}
+	t.Rows[1] = []Val{Str("b"), Int(1)}
+	t.Rows[2] = []Val{Str("a"), Int(2)}
+	g.Tables = []*Table{t}
+	inner := &Query{From: Source{Kind: "table", Table: t.Name, Alias: "t1"}, GroupBy: []Expr{Col{Name: "k"}}}
+	k1, c, s := g.fresh("k"), g.fresh("g"), g.fresh("g")
+	inner.Items = []Item{{E: Col{Name: "k"}, Alias: k1}, {Agg: "count", CStar: true, E: Lit{Bool(true)}, Alias: c},
+		{Agg: []string{"sum", "max", "count"}[r.Intn(3)], E: Col{Name: "v"}, Alias: s}}
+	inner.Trigger = []string{"COUNTING 1", "COUNTING 1", "COUNTING 2", "COUNTING 1, ON END OF STREAM"}[i%4]
+	g.Triggers = append(g.Triggers, inner)
+	x := g.fresh("x")
+	outer := &Query{From: Source{Kind: "sub", Sub: inner, Alias: x}}
+	pool := []Item{{Agg: "count", Dist: true, E: Col{Name: c}}, {Agg: "sum", Dist: true, E: Col{Name: c}},
+		{Agg: "array_agg", Dist: true, E: Col{Name: c}}, {Agg: "avg", Dist: true, E: Col{Name: c}}, {Agg: "count", E: Col{Name: s}},
+		{Agg: "sum", E: Col{Name: c}}, {Agg: "max", E: Col{Name: s}}, {Agg: "min", E: Col{Name: c}}, {Agg: "array_agg", E: Col{Name: c}},
+		{Agg: "count", Dist: true, E: Col{Name: s}}, {Agg: "avg", E: Col{Name: s}}}
+	n := 2 + r.Intn(2)
+	for j := 0; j < n; j++ {
+		it := pool[(i+j*4+r.Intn(3))%len(pool)]
+		if j == 0 {
+			it = pool[i%4] // always a DISTINCT aggregate of the counts
+		}
+		it.Alias = g.fresh("g")
+		outer.Items = append(outer.Items, it)
+	}
+	if i%3 == 2 { // grouped by a column that changes while the inner query runs
+		outer.GroupBy = []Expr{Col{Name: s}}
+		outer.Items = append([]Item{{E: Col{Name: s}, Alias: g.fresh("k")}}, outer.Items...)
+	}
+	g.shape("outer aggregation over TRIGGER " + inner.Trigger)
+	return &Top{Main: outer}
 }
